@@ -463,6 +463,48 @@ class Interp:
                       ("isArray", "array"), ("isFunction", "function"), ("isNull", "null")):
             c13[nm] = bd(nm, [("v", None)], is_(t))
 
+
+        def foldl(func, arr, init):
+            func, arr = need(func.force(), "function", "foldl"), arr.force()
+            if isinstance(arr, str):
+                raise Abstain("fold over a string")
+            need(arr, "array", "foldl")
+            acc = init.force()
+            for t in arr.items:
+                acc = it.call(func, [Thunk.ready(acc), t], [])
+            return acc
+
+        def foldr(func, arr, init):
+            func, arr = need(func.force(), "function", "foldr"), arr.force()
+            if isinstance(arr, str):
+                raise Abstain("fold over a string")
+            need(arr, "array", "foldr")
+            acc = init.force()
+            for t in reversed(arr.items):
+                acc = it.call(func, [t, Thunk.ready(acc)], [])
+            return acc
+
+        def flat_map(func, arr):
+            func, arr = need(func.force(), "function", "flatMap"), arr.force()
+            if isinstance(arr, str):
+                raise Abstain("flatMap over a string")
+            need(arr, "array", "flatMap")
+            out = []
+            for t in arr.items:
+                r = it.call(func, [t], [])
+                if r is None:
+                    raise Abstain("null result in flatMap")
+                need(r, "array", "flatMap result")
+                out += r.items
+            return VArr(out)
+
+        def filter_map(ff, mf, arr):
+            return map_(mf, Thunk.ready(filter_(ff, arr)))
+
+        c13["foldl"] = bd("foldl", [("func", None), ("arr", None), ("init", None)], foldl)
+        c13["foldr"] = bd("foldr", [("func", None), ("arr", None), ("init", None)], foldr)
+        c13["flatMap"] = bd("flatMap", [("func", None), ("arr", None)], flat_map)
+        c13["filterMap"] = bd("filterMap", [("filter_func", None), ("map_func", None), ("arr", None)], filter_map)
         fields = {
             "length": b("length", ["x"], length), "trace": b("trace", ["str", "rest"], trace),
             "extVar": b("extVar", ["x"], ext_var), "type": b("type", ["x"], type_),
